@@ -1792,6 +1792,37 @@ func runC06Foreign(c *Ctx) {
 			} else if k, ok := constString(bo.Y); ok {
 				s, other = k, bo.X
 			} else {
+				// a parameter of a helper split off f compared with the elements of a package-level
+				// string table: every name in the table is kept out
+				if sf != f {
+					for _, pr := range [][2]ssa.Value{{bo.X, bo.Y}, {bo.Y, bo.X}} {
+						if _, isPar := pr[0].(*ssa.Parameter); !isPar {
+							continue
+						}
+						var gl *ssa.Global
+						switch e := pr[1].(type) {
+						case *ssa.Index:
+							if ld, ok := e.X.(*ssa.UnOp); ok {
+								gl, _ = ld.X.(*ssa.Global)
+							}
+						case *ssa.UnOp:
+							if ia, ok := e.X.(*ssa.IndexAddr); ok {
+								if ld, ok := ia.X.(*ssa.UnOp); ok {
+									gl, _ = ld.X.(*ssa.Global)
+								} else {
+									gl, _ = ia.X.(*ssa.Global)
+								}
+							}
+						}
+						if gl != nil {
+							if lst, ok := globalStringList(c.P, "geom", gl.Name()); ok {
+								for _, nm := range lst {
+									skipped[nm] = true
+								}
+							}
+						}
+					}
+				}
 				return
 			}
 			// other is the key extracted from a map iteration
@@ -2013,6 +2044,13 @@ func runC11Nearest(c *Ctx) {
 		it.answer = func(key string, isBool bool) (k4val, bool) {
 			if !isBool && strings.Contains(key, "PrioritySearch(") {
 				return k4val{kind: 3, s: "nil"}, true
+			}
+			// the search's own error is nil (Stop is swallowed by PrioritySearch, C11.stop)
+			if isBool && strings.Contains(key, "PrioritySearch(") && strings.HasSuffix(key, "!=nil)") {
+				return k4val{kind: 1, b: false}, true
+			}
+			if isBool && strings.Contains(key, "PrioritySearch(") && strings.HasSuffix(key, "==nil)") {
+				return k4val{kind: 1, b: true}, true
 			}
 			return k4val{}, false
 		}
@@ -3709,6 +3747,14 @@ func runC04ScanType(c *Ctx) {
 			switch {
 			case isBool && strings.Contains(key, ").Scan(") && strings.Contains(key, "==nil"):
 				return k4val{kind: 1, b: !t.scanErr}, true
+			// the body of Geometry.Scan written out (or moved into a helper): src holds bytes, and
+			// UnmarshalWKB is what can fail
+			case isBool && strings.HasSuffix(key, ".([]byte)#1"):
+				return k4val{kind: 1, b: true}, true
+			case isBool && strings.Contains(key, "UnmarshalWKB(") && strings.HasSuffix(key, "==nil)"):
+				return k4val{kind: 1, b: !t.scanErr}, true
+			case isBool && strings.Contains(key, "UnmarshalWKB(") && strings.HasSuffix(key, "!=nil)"):
+				return k4val{kind: 1, b: t.scanErr}, true
 			case !isBool && strings.Contains(key, "(Geometry).Type("):
 				return k4val{kind: 2, f: t.tg}, true
 			case !isBool && strings.Contains(key, "Type("):
